@@ -1,17 +1,29 @@
 (* C03 -- The connection sequence conforms end to end, for every conforming server and configuration.
-   Statements only; every proof is `exact <lemma>` into C03_proofs.v / C03_examples.v.
+   Statements only; every proof is `exact <lemma>` into C03_proofs.v / C03_nla_proofs.v / C03_nla_run.v / C03_nla_exec.v /
+   C03_examples.v.
 
    Model  : Flow.v  = Connector::connect (Connect.v) + the RdpClient::read loop (Global.v) + shutdown over ONE
-            chunked stream, producing the byte-level transport trace (units written in clear / inside TLS).
+            chunked stream, producing the byte-level transport trace (units written in clear / inside TLS);
+            FlowNla.v = the same with the CredSSP oracle instantiated by the model of cssp_connect (CsspGate.v)
+            on the NTLM state Connector::connect builds (password or hash mode, restricted admin || blank creds).
    Spec   : RefSequence.v = the conforming server as a parameterised reference encoder ([server], [replies]),
             the mandated conversation of MS-RDPBCGR 1.3.1.1 ([conversation], [expected_kinds],
             [sent_before_reply]); client units are observed through C04's strict parsers ([frame_kind]).
+            RefCredssp.v = the reference CredSSP / NTLM SERVER (MS-CSSP 3.1.5 over MS-NLMP 3.2.5 / 3.4: RefNlmp.v,
+            RefNlmpSeal.v, DER of Der.v): [cssp_reply1], [cssp_reply2], [cssp_serve].
    [holds cs b] : the stream [cs] delivers exactly the bytes [b], cut into non-empty reads in ANY way.
    External code is universally quantified: the BER parser ([ber_ok]: it returns the user data of THIS server's
    connect-response), the TLS handshake ([tls_start [] = Ok post]: it succeeds once everything sent in clear is
-   consumed, [post] = the server's records), CredSSP (only when HYBRID is selected). *)
-From RdpV Require Import Base Msg Link Tpkt Global BerYasna Connect ConnectRun ClientPdus Flow FlowRun StrictPdu RefSequence.
-From RdpV Require Import C13_proofs C03_base C03_proofs C03_examples.
+   consumed, [post] = the server's records), and for NLA the hash functions (any md4 / md5 / hmac with 16-byte
+   digests; RC4 is the concrete Rc4.v), String::to_uppercase (shared by client and server) and the TSRequest
+   codecs ([codec_ok]: the writers produce the DER of the MS-CSSP shapes -- the encoding of C18's TLV model -- on
+   arguments of up to 2^32 bytes, and the readers return the token of a reply that arrives whole).  For the
+   EXECUTABLE instance -- the program the correspondence extracts and compares with the real crate -- nothing of
+   this is left as a hypothesis: the concrete MD5 / HMAC-MD5, the DER writers of CsspGateExec.v and the yasna model of
+   DerRead.v are PROVED to satisfy it ([C03_codec_executable], the `_executable` theorems). *)
+From RdpV Require Import Base Msg Link Tpkt Global BerYasna Connect ConnectRun ClientPdus Flow FlowRun FlowNla StrictPdu RefSequence.
+From RdpV Require Import Rc4 Md5 Md4 Hmac Utf Ntlm NtlmSeal RefNlmp RefNlmpSeal Der DerRead CsspGate CsspGateExec RefCredssp.
+From RdpV Require Import FlowNlaRun C13_proofs C15_proofs C03_base C03_proofs C03_der_exec C03_nla_proofs C03_nla_run C03_nla_exec C03_examples.
 Open Scope list_scope.
 Open Scope N_scope.
 
@@ -35,24 +47,86 @@ Theorem C03_sequence :
 Proof. exact sequence_ssl. Qed.
 Print Assumptions C03_sequence.
 
-(* The same with NLA (HYBRID selected).  PARTIAL: the CredSSP exchange is not derived from a conforming CredSSP
-   server here -- its outcome is a hypothesis ([cssp_run post = (ncssp, Ok post')]: [ncssp] messages written, success,
-   [post'] left of the server's records); C01 / C07 / C15 own that exchange, C03_nonvacuous shows the executable
-   CsspGate model satisfying the hypothesis on the reference exchange.  The CredSSP messages sit between the
-   handshake and the MCS connect-initial. *)
-Theorem C03_sequence_nla_partial :
-  forall p ber_parse trusted tls_start cssp_run cssp_msgs (c : fcfg) (srv : server) (cs post post' : stream) (ncssp : nat),
+(* THE CREDSSP EXCHANGE against the reference server.  For all hash functions with 16-byte digests, any uppercase
+   mapping, any codecs satisfying [codec_ok], any NTLM state whose keys are those of the server's account
+   ([keys_match]: Ntlm::new on the password whose NT hash the server holds, or Ntlm::from_hash on that hash), any
+   conforming CredSSP server (ANY server challenge, ANY flags with key exchange, ANY target info -- any AV pairs in any
+   order -- with one timestamp, ANY public key bytes), any client randomness of 8 + 16 bytes, restricted admin or not:
+   on the stream that hands over the server's two replies, one read each, cssp_connect returns Ok after exactly three
+   messages, and the reference server -- fed these three messages -- accepts each of them: it answers with exactly
+   those two replies, recovers the client's exported session key, and unseals the TSPasswordCreds the mode prescribes
+   ([ts_creds]: three empty strings when `restricted`, else domain / user / password in the negotiated character set). *)
+Theorem C03_credssp_reference_accepted :
+  forall (md5 : bytes -> bytes) (hmac : bytes -> bytes -> bytes) (uppercase : list N -> list N) (p : prof)
+         (create_ts_request : bytes -> bytes) (create_ts_authenticate : bytes -> bytes -> bytes)
+         (create_ts_credentials : bytes -> bytes -> bytes -> bytes) (create_ts_authinfo : bytes -> bytes)
+         (read_ts_server_challenge read_ts_validate : bytes -> outcome bytes),
+  (forall x, List.length (md5 x) = 16%nat) -> (forall k x, List.length (hmac k x) = 16%nat) ->
+  codec_ok create_ts_request create_ts_authenticate create_ts_credentials create_ts_authinfo
+           read_ts_server_challenge read_ts_validate ->
+  forall (st : ntlm) (restricted : bool) (srv : cssp_server) (nonce key : bytes) (rest : stream),
+  keys_match hmac uppercase st (cs_account srv) -> cssp_conforming srv -> auth_fits st (cs_challenge srv) ->
+  List.length nonce = 8%nat -> List.length key = 16%nat ->
+  one_read (cssp_reply1 srv) -> one_read (cssp_reply2 md5 hmac srv key) ->
+  exists w1 w2 w3,
+    cssp_connect md5 hmac p create_ts_request create_ts_authenticate create_ts_credentials create_ts_authinfo
+                 read_ts_server_challenge read_ts_validate st restricted (Ok (cs_pubkey srv))
+                 (cssp_reply1 srv :: cssp_reply2 md5 hmac srv key :: rest) nonce key = (Ok tt, [w1; w2; w3]) /\
+    cssp_serve md5 hmac uppercase srv CsStart [w1; w2; w3] =
+      ([cssp_reply1 srv; cssp_reply2 md5 hmac srv key],
+       cs_done key (ts_creds st restricted (N.land (c_flags (cs_challenge srv)) 1 =? 1))).
+Proof. exact credssp_exchange. Qed.
+Print Assumptions C03_credssp_reference_accepted.
+
+(* SEQUENCE with NLA (HYBRID selected) -- FULL: no hypothesis on the outcome of the CredSSP exchange.  For every
+   configuration with NLA ([nla_params]: password or hash mode, blank credentials; restricted admin is in [fcfg]),
+   every conforming RDP server and every conforming CredSSP server holding the configured account and presenting the
+   public key of this TLS session ([nla_ok]; its replies delivered ONE READ EACH, at most 1500 bytes: [nla_stream] --
+   a reply split across reads is the known finding below), every client randomness, every fragmentation of everything
+   after CredSSP: the run ends Ok after the shutdown; the units written are the connection request in clear, the
+   handshake, the three CredSSP messages, then frames decoding to exactly the mandated sequence; and the reference
+   CredSSP server accepts the three messages (replies = the ones delivered, session key recovered, credentials per
+   mode: [C03_nla_credentials]). *)
+Theorem C03_sequence_nla :
+  forall (md4 md5 : bytes -> bytes) (hmac : bytes -> bytes -> bytes) (uppercase : list N -> list N) (p : prof)
+         (create_ts_request : bytes -> bytes) (create_ts_authenticate : bytes -> bytes -> bytes)
+         (create_ts_credentials : bytes -> bytes -> bytes -> bytes) (create_ts_authinfo : bytes -> bytes)
+         (read_ts_server_challenge read_ts_validate : bytes -> outcome bytes),
+  (forall x, List.length (md5 x) = 16%nat) -> (forall k x, List.length (hmac k x) = 16%nat) ->
+  codec_ok create_ts_request create_ts_authenticate create_ts_credentials create_ts_authinfo
+           read_ts_server_challenge read_ts_validate ->
+  forall ber_parse trusted tls_start (c : fcfg) (n : nla_params) (srv : server) (csrv : cssp_server) (cs post' : stream),
     valid_fcfg c -> conforming (c_offered (f_pdu c)) srv -> sv_selected srv = SEL_HYBRID ->
     ber_ok ber_parse srv -> (f_check_cert c = true -> trusted = true) ->
-    holds cs (ref_confirm srv) -> tls_start [] = Ok post ->
-    cssp_run post = (ncssp, Ok post') ->
+    nla_ok md4 md5 hmac c n csrv ->
+    holds cs (ref_confirm srv) -> tls_start [] = Ok (nla_stream md5 hmac csrv n post') ->
     holds post' (List.concat (List.tl (replies srv (f_user_first c)))) ->
-    let r := flow p ber_parse trusted tls_start cssp_run cssp_msgs c (nreads_of srv) cs in
+    let r := flow_nla md4 md5 hmac uppercase p create_ts_request create_ts_authenticate create_ts_credentials
+                      create_ts_authinfo read_ts_server_challenge read_ts_validate
+                      ber_parse trusted tls_start c n (nreads_of srv) cs (nla_stream md5 hmac csrv n post') in
     fl_res r = Ok tt /\ fl_stage r = StShutdown /\
-    exists cr frames, fl_trace r = FRaw cr :: FTlsStart true :: cssp_evs ncssp cssp_msgs ++ map FTls frames /\
-      map frame_kind (cr :: frames) = map Some (expected_kinds srv (f_user_first c)).
-Proof. exact sequence_nla. Qed.
-Print Assumptions C03_sequence_nla_partial.
+    exists w1 w2 w3 cr frames,
+      fl_trace r = FRaw cr :: FTlsStart true :: FTls w1 :: FTls w2 :: FTls w3 :: map FTls frames /\
+      map frame_kind (cr :: frames) = map Some (expected_kinds srv (f_user_first c)) /\
+      cssp_serve md5 hmac uppercase csrv CsStart [w1; w2; w3] =
+        ([cssp_reply1 csrv; cssp_reply2 md5 hmac csrv (nl_key n)],
+         cs_done (nl_key n) (nla_creds md4 hmac uppercase c n csrv)).
+Proof. exact sequence_nla_full. Qed.
+Print Assumptions C03_sequence_nla.
+
+(* what the reference server receives in the third message, per mode: nothing under restricted admin or blank
+   credentials; otherwise domain and user in the character set of the CHALLENGE and the password -- EMPTY in hash mode
+   (Ntlm::from_hash keeps no password; the hash only keys the response: C17_hash_mode) *)
+Theorem C03_nla_credentials :
+  forall md4 hmac uppercase (c : fcfg) (n : nla_params) (cs : cssp_server),
+    nla_creds md4 hmac uppercase c n cs =
+    let k := f_pdu c in
+    let u := N.land (c_flags (cs_challenge cs)) 1 =? 1 in
+    if c_ram k || nl_blank n then ([], [], [])
+    else (encode_name u (c_domain k), encode_name u (c_user k),
+          match nl_hash n with Some _ => [] | None => encode_name u (c_password k) end).
+Proof. exact nla_creds_modes. Qed.
+Print Assumptions C03_nla_credentials.
 
 (* CAUSALITY.  The server stops after the confirm and k of its replies inside TLS (any k, anywhere in the
    connection or in any activation round): the client has written exactly the messages that precede reply k+1 in
@@ -71,20 +145,66 @@ Theorem C03_causality :
 Proof. exact causality_ssl. Qed.
 Print Assumptions C03_causality.
 
-Theorem C03_causality_nla_partial :
-  forall p ber_parse trusted tls_start cssp_run cssp_msgs (c : fcfg) (srv : server) (cs post post' : stream) (ncssp k : nat),
+(* CAUSALITY with NLA -- FULL.  After the complete CredSSP exchange the server stops after k further replies ... *)
+Theorem C03_causality_nla :
+  forall (md4 md5 : bytes -> bytes) (hmac : bytes -> bytes -> bytes) (uppercase : list N -> list N) (p : prof)
+         (create_ts_request : bytes -> bytes) (create_ts_authenticate : bytes -> bytes -> bytes)
+         (create_ts_credentials : bytes -> bytes -> bytes -> bytes) (create_ts_authinfo : bytes -> bytes)
+         (read_ts_server_challenge read_ts_validate : bytes -> outcome bytes),
+  (forall x, List.length (md5 x) = 16%nat) -> (forall k x, List.length (hmac k x) = 16%nat) ->
+  codec_ok create_ts_request create_ts_authenticate create_ts_credentials create_ts_authinfo
+           read_ts_server_challenge read_ts_validate ->
+  forall ber_parse trusted tls_start (c : fcfg) (n : nla_params) (srv : server) (csrv : cssp_server) (cs post' : stream) (k : nat),
     valid_fcfg c -> conforming (c_offered (f_pdu c)) srv -> sv_selected srv = SEL_HYBRID ->
     ber_ok ber_parse srv -> (f_check_cert c = true -> trusted = true) ->
-    holds cs (ref_confirm srv) -> tls_start [] = Ok post ->
-    cssp_run post = (ncssp, Ok post') ->
+    nla_ok md4 md5 hmac c n csrv ->
+    holds cs (ref_confirm srv) -> tls_start [] = Ok (nla_stream md5 hmac csrv n post') ->
     (k < List.length (List.tl (replies srv (f_user_first c))))%nat ->
     holds post' (List.concat (firstn k (List.tl (replies srv (f_user_first c))))) ->
-    let r := flow p ber_parse trusted tls_start cssp_run cssp_msgs c (nreads_of srv) cs in
+    let r := flow_nla md4 md5 hmac uppercase p create_ts_request create_ts_authenticate create_ts_credentials
+                      create_ts_authinfo read_ts_server_challenge read_ts_validate
+                      ber_parse trusted tls_start c n (nreads_of srv) cs (nla_stream md5 hmac csrv n post') in
     fl_res r = Err EIo /\
-    exists cr frames, fl_trace r = FRaw cr :: FTlsStart true :: cssp_evs ncssp cssp_msgs ++ map FTls frames /\
-      map frame_kind (cr :: frames) = map Some (sent_before_reply srv (f_user_first c) (S k)).
-Proof. exact causality_nla. Qed.
-Print Assumptions C03_causality_nla_partial.
+    exists w1 w2 w3 cr frames,
+      fl_trace r = FRaw cr :: FTlsStart true :: FTls w1 :: FTls w2 :: FTls w3 :: map FTls frames /\
+      map frame_kind (cr :: frames) = map Some (sent_before_reply srv (f_user_first c) (S k)) /\
+      cssp_serve md5 hmac uppercase csrv CsStart [w1; w2; w3] =
+        ([cssp_reply1 csrv; cssp_reply2 md5 hmac csrv (nl_key n)],
+         cs_done (nl_key n) (nla_creds md4 hmac uppercase c n csrv)).
+Proof. exact causality_nla_full. Qed.
+Print Assumptions C03_causality_nla.
+
+(* ... and INSIDE the CredSSP exchange: the server stops right after the handshake (j = 0) or after its first CredSSP
+   reply (j = 1).  The attempt fails in connect and the client has written exactly the first j + 1 of the three
+   messages of the complete exchange (the TSRequest with the credentials is never written without the key proof: C01).
+   Extra premise on the external readers: they do not return a token for the empty input (end of stream). *)
+Theorem C03_causality_nla_credssp :
+  forall (md4 md5 : bytes -> bytes) (hmac : bytes -> bytes -> bytes) (uppercase : list N -> list N) (p : prof)
+         (create_ts_request : bytes -> bytes) (create_ts_authenticate : bytes -> bytes -> bytes)
+         (create_ts_credentials : bytes -> bytes -> bytes -> bytes) (create_ts_authinfo : bytes -> bytes)
+         (read_ts_server_challenge read_ts_validate : bytes -> outcome bytes),
+  (forall x, List.length (md5 x) = 16%nat) -> (forall k x, List.length (hmac k x) = 16%nat) ->
+  codec_ok create_ts_request create_ts_authenticate create_ts_credentials create_ts_authinfo
+           read_ts_server_challenge read_ts_validate ->
+  forall ber_parse trusted tls_start (c : fcfg) (n : nla_params) (srv : server) (csrv : cssp_server) (cs : stream) (j : nat),
+    valid_fcfg c -> conforming (c_offered (f_pdu c)) srv -> sv_selected srv = SEL_HYBRID ->
+    (f_check_cert c = true -> trusted = true) ->
+    nla_ok md4 md5 hmac c n csrv ->
+    not_ok (read_ts_server_challenge []) -> not_ok (read_ts_validate []) ->
+    holds cs (ref_confirm srv) -> (j < 2)%nat ->
+    tls_start [] = Ok (firstn j (nla_stream md5 hmac csrv n [])) ->
+    let r := flow_nla md4 md5 hmac uppercase p create_ts_request create_ts_authenticate create_ts_credentials
+                      create_ts_authinfo read_ts_server_challenge read_ts_validate
+                      ber_parse trusted tls_start c n (nreads_of srv) cs (firstn j (nla_stream md5 hmac csrv n [])) in
+    fl_res r <> Ok tt /\ fl_stage r = StConnect /\
+    exists w1 w2 w3 cr,
+      fl_trace r = FRaw cr :: FTlsStart true :: map FTls (firstn (S j) [w1; w2; w3]) /\
+      frame_kind cr = Some KRequest /\
+      cssp_serve md5 hmac uppercase csrv CsStart [w1; w2; w3] =
+        ([cssp_reply1 csrv; cssp_reply2 md5 hmac csrv (nl_key n)],
+         cs_done (nl_key n) (nla_creds md4 hmac uppercase c n csrv)).
+Proof. exact causality_nla_cssp. Qed.
+Print Assumptions C03_causality_nla_credssp.
 
 (* ... and a server that does not answer at all has received the connection request and nothing else. *)
 Theorem C03_causality_first :
@@ -142,8 +262,9 @@ Print Assumptions C03_shutdown.
    known and unknown capability sets) and a configuration with non-BMP strings satisfy the hypotheses; the
    EXECUTABLE instance of the model (yasna model as BER parser) runs to Ok on the 7-byte-chunked stream and its 18
    frames decode to the mandated sequence; cut before the 9th reply it ends in the third read with exactly the
-   prefix.  NLA: the executable CsspGate model answers the oracle hypothesis on the reference CredSSP exchange, and
-   the run's frames are the mandated sequence around the three reference CredSSP messages. *)
+   prefix.  NLA: the executable CsspGate model runs the reference CredSSP exchange (three messages, Ok, the stream
+   after the two replies), and the run's frames are the mandated sequence around the three reference CredSSP messages
+   (the hypotheses of the NLA theorems: [C03_nla_nonvacuous]). *)
 Theorem C03_nonvacuous :
   (valid_fcfg ex_cfg /\ conforming (c_offered (f_pdu ex_cfg)) ex_srv /\ sv_selected ex_srv = SEL_SSL /\
    ber_ok (ber_connect_response Debug) ex_srv /\
@@ -165,10 +286,153 @@ Proof.
 Qed.
 Print Assumptions C03_nonvacuous.
 
+(* NON-VACUITY of the NLA theorems.  (1) Their hypotheses are jointly satisfiable: the example configuration and
+   servers, the concrete MD4 / MD5 / HMAC-MD5 (16-byte digests), and as codecs the DER codec of C18's TLV model itself
+   ([codec_ok_der]).  (2) The reference CredSSP server's two replies are, byte for byte, the replies of the python
+   reference (gen/credssp.py) that C01's example uses, and the stream of the executable run IS [nla_stream].  (3) The
+   EXECUTABLE instance (FlowRun.v: concrete hashes, DER writers of CsspGateExec.v, the yasna model DerRead.v) is the
+   generic model [flow_nla] at these functions; it runs to Ok with the three reference client messages in place.
+   (4) The reference server accepts these three messages, recovers the session key and receives domain / user /
+   password in UTF-16; in hash mode it receives an empty password, with blank credentials three empty strings.
+   (5) It does not accept just anything: a flipped bit in the sealed key or in the sealed credentials, another NT hash,
+   another certificate key (relay), a repeated or an out-of-order message each end in CsRefused. *)
+Theorem C03_nla_nonvacuous :
+  (valid_fcfg nla_cfg /\ conforming (c_offered (f_pdu nla_cfg)) nla_srv /\ sv_selected nla_srv = SEL_HYBRID /\
+   ber_ok (ber_connect_response Debug) nla_srv /\
+   nla_ok md4 md5 hmac_md5 nla_cfg nla_par nla_csrv /\
+   (forall x, List.length (md5 x) = 16%nat) /\ (forall k x, List.length (hmac_md5 k x) = 16%nat) /\
+   codec_ok (fun n => der_encode (ts_request n)) (fun t k => der_encode (ts_authenticate t k))
+            (fun d u pw => der_encode (ts_credentials d u pw)) (fun i => der_encode (ts_authinfo i))
+            der_read_challenge der_read_validate /\
+   holds (chunked 50 (List.concat (List.tl (replies nla_srv false)))) (List.concat (List.tl (replies nla_srv false)))) /\
+  (cssp_reply1 nla_csrv = C01_proofs.ex_reply1 /\
+   cssp_reply2 md5 hmac_md5 nla_csrv C15_proofs.ex_key = C01_proofs.ex_reply2_ok /\
+   nla_post [C01_proofs.ex_reply1]
+     = nla_stream md5 hmac_md5 nla_csrv nla_par (chunked 50 (List.concat (List.tl (replies nla_srv false))))) /\
+  (flow_nla md4 md5 hmac_md5 C15_proofs.ascii_upper Debug x_create_ts_request x_create_ts_authenticate x_create_ts_credentials
+            x_create_ts_authinfo (x_read_ts_server_challenge Debug) (x_read_ts_validate Debug)
+            (ber_connect_response Debug) true (tls_after (nla_post [C01_proofs.ex_reply1]))
+            nla_cfg nla_par 5 [ref_confirm nla_srv] (nla_post [C01_proofs.ex_reply1]) = nla_run /\
+   fl_res nla_run = Ok tt /\
+   funits (fl_trace nla_run) =
+     (hd [] (funits (fl_trace nla_run))) :: [C01_proofs.ex_w1; C01_proofs.ex_w2; C01_proofs.ex_w3] ++ skipn 4 (funits (fl_trace nla_run))) /\
+  cssp_serve md5 hmac_md5 C15_proofs.ascii_upper nla_csrv CsStart [C01_proofs.ex_w1; C01_proofs.ex_w2; C01_proofs.ex_w3]
+    = ([C01_proofs.ex_reply1; C01_proofs.ex_reply2_ok],
+       CsDone C15_proofs.ex_key (utf16le C15_proofs.ex_dom) (utf16le C15_proofs.ex_user) (utf16le C15_proofs.ex_pw)) /\
+  (nla_cssp_ex nla_par = (Ok tt, [C01_proofs.ex_w1; C01_proofs.ex_w2; C01_proofs.ex_w3]) /\
+   (fst (nla_cssp_ex nla_par_hash) = Ok tt /\
+    snd (cssp_serve md5 hmac_md5 C15_proofs.ascii_upper nla_csrv CsStart (snd (nla_cssp_ex nla_par_hash)))
+    = CsDone C15_proofs.ex_key (utf16le C15_proofs.ex_dom) (utf16le C15_proofs.ex_user) []) /\
+   (fst (nla_cssp_ex nla_par_blank) = Ok tt /\
+    snd (cssp_serve md5 hmac_md5 C15_proofs.ascii_upper nla_csrv CsStart (snd (nla_cssp_ex nla_par_blank)))
+    = CsDone C15_proofs.ex_key [] [] [])) /\
+  (let serve := cssp_serve md5 hmac_md5 C15_proofs.ascii_upper in
+   let w1 := C01_proofs.ex_w1 in let w2 := C01_proofs.ex_w2 in let w3 := C01_proofs.ex_w3 in
+   snd (serve nla_csrv CsStart [w1; flip_last w2; w3]) = CsRefused /\
+   snd (serve nla_csrv CsStart [w1; w2; flip_last w3]) = CsRefused /\
+   snd (serve (mkCsspServer (mkAccount C15_proofs.ex_user C15_proofs.ex_dom (md4 (utf16le C15_proofs.ex_user)))
+                            C15_proofs.ex_chal C01_proofs.ex_pubkey) CsStart [w1; w2; w3]) = CsRefused /\
+   snd (serve (mkCsspServer (cs_account nla_csrv) C15_proofs.ex_chal (C01_proofs.ex_pubkey ++ [1])) CsStart [w1; w2; w3]) = CsRefused /\
+   snd (serve nla_csrv CsStart [w1; w2; w2]) = CsRefused /\
+   snd (serve nla_csrv CsStart [w2]) = CsRefused).
+Proof.
+  exact (conj (conj nla_cfg_valid (conj nla_srv_conforming (conj eq_refl (conj (proj2 (proj2 ex_ber)) (conj nla_ok_ex
+                (conj C16_proofs.md5_length (conj C16_proofs.hmac_md5_length (conj codec_ok_der (proj2 nla_oracle)))))))))
+        (conj nla_reference_replies
+        (conj (conj nla_run_generic (conj (proj1 nla_run_ok) (proj1 (proj2 nla_run_ok))))
+        (conj nla_serve_ex (conj nla_modes_ex nla_serve_rejects))))).
+Qed.
+Print Assumptions C03_nla_nonvacuous.
+
+(* THE EXTRACTED PROGRAM IS THE MODEL OF THE THEOREMS.  What the correspondence extracts and compares with the real
+   crate (FlowRun.flow_impl on the environment FlowNlaRun.nla_cssp_env: the CredSSP model evaluated once per run) computes,
+   for EVERY input -- configuration, mode, randomness, uppercase mapping, profile, scripted server streams --, exactly
+   FlowNla.flow_nla at the concrete MD4 / MD5 / HMAC-MD5, the DER writers of CsspGateExec.v, the yasna models of
+   DerRead.v / BerYasna.v and the harness's TLS oracle. *)
+Theorem C03_extracted_is_generic :
+  forall (upper : list N -> list N) (p : prof) (c : fcfg) (n : nla_params) (nreads : nat) (raw : stream) (post : option stream),
+    flow_impl p (nla_cssp_env upper c n) c nreads raw post =
+    flow_nla md4 md5 hmac_md5 upper p x_create_ts_request x_create_ts_authenticate x_create_ts_credentials
+             x_create_ts_authinfo (x_read_ts_server_challenge p) (x_read_ts_validate p)
+             (ber_connect_response p) true (match post with Some ps => tls_after ps | None => no_tls end)
+             c n nreads raw (match post with Some ps => ps | None => [] end).
+Proof. exact flow_impl_is_flow_nla. Qed.
+Print Assumptions C03_extracted_is_generic.
+
+(* THE EXECUTABLE CODECS SATISFY [codec_ok]: for every argument of up to 2^32 bytes the DER writers of CsspGateExec.v
+   (model of yasna::construct_der on the TSRequest shapes) produce exactly the encoding of C18's TLV model, and the
+   yasna reader model of DerRead.v (read_ts_server_challenge / read_ts_validate templates) returns the token of every
+   such encoding of at most 1500 bytes -- both build profiles. *)
+Theorem C03_codec_executable :
+  forall p : prof,
+    codec_ok x_create_ts_request x_create_ts_authenticate x_create_ts_credentials x_create_ts_authinfo
+             (x_read_ts_server_challenge p) (x_read_ts_validate p).
+Proof. exact codec_ok_exec. Qed.
+Print Assumptions C03_codec_executable.
+
+(* SEQUENCE / CAUSALITY with NLA for THE EXTRACTED PROGRAM (flow_impl on nla_cssp_env: concrete MD4 / MD5 / HMAC-MD5 / RC4,
+   CsspGateExec.v writers, DerRead.v / BerYasna.v yasna models, the harness's TLS oracle): the statements of
+   C03_sequence_nla / C03_causality_nla / C03_causality_nla_credssp with NO hypothesis on hashes or codecs.  What remains
+   assumed is what is external to the client: the configuration is valid, both servers conform (the RDP server of
+   RefSequence.v, the CredSSP server of RefCredssp.v holding the account and the certificate key, replies one read
+   each), the BER model returns the user data of this server's connect-response ([ber_ok]), any uppercase mapping. *)
+Theorem C03_sequence_nla_executable :
+  forall (upper : list N -> list N) (p : prof) (c : fcfg) (n : nla_params) (srv : server) (csrv : cssp_server) (cs post' : stream),
+    valid_fcfg c -> conforming (c_offered (f_pdu c)) srv -> sv_selected srv = SEL_HYBRID ->
+    ber_ok (ber_connect_response p) srv ->
+    nla_ok md4 md5 hmac_md5 c n csrv ->
+    holds cs (ref_confirm srv) ->
+    holds post' (List.concat (List.tl (replies srv (f_user_first c)))) ->
+    let r := flow_impl p (nla_cssp_env upper c n) c (nreads_of srv) cs (Some (nla_stream md5 hmac_md5 csrv n post')) in
+    fl_res r = Ok tt /\ fl_stage r = StShutdown /\
+    exists w1 w2 w3 cr frames,
+      fl_trace r = FRaw cr :: FTlsStart true :: FTls w1 :: FTls w2 :: FTls w3 :: map FTls frames /\
+      map frame_kind (cr :: frames) = map Some (expected_kinds srv (f_user_first c)) /\
+      cssp_serve md5 hmac_md5 upper csrv CsStart [w1; w2; w3] =
+        ([cssp_reply1 csrv; cssp_reply2 md5 hmac_md5 csrv (nl_key n)],
+         cs_done (nl_key n) (nla_creds md4 hmac_md5 upper c n csrv)).
+Proof. exact sequence_nla_exec. Qed.
+Print Assumptions C03_sequence_nla_executable.
+
+Theorem C03_causality_nla_executable :
+  forall (upper : list N -> list N) (p : prof) (c : fcfg) (n : nla_params) (srv : server) (csrv : cssp_server) (cs post' : stream) (k : nat),
+    valid_fcfg c -> conforming (c_offered (f_pdu c)) srv -> sv_selected srv = SEL_HYBRID ->
+    ber_ok (ber_connect_response p) srv ->
+    nla_ok md4 md5 hmac_md5 c n csrv ->
+    holds cs (ref_confirm srv) ->
+    (k < List.length (List.tl (replies srv (f_user_first c))))%nat ->
+    holds post' (List.concat (firstn k (List.tl (replies srv (f_user_first c))))) ->
+    let r := flow_impl p (nla_cssp_env upper c n) c (nreads_of srv) cs (Some (nla_stream md5 hmac_md5 csrv n post')) in
+    fl_res r = Err EIo /\
+    exists w1 w2 w3 cr frames,
+      fl_trace r = FRaw cr :: FTlsStart true :: FTls w1 :: FTls w2 :: FTls w3 :: map FTls frames /\
+      map frame_kind (cr :: frames) = map Some (sent_before_reply srv (f_user_first c) (S k)) /\
+      cssp_serve md5 hmac_md5 upper csrv CsStart [w1; w2; w3] =
+        ([cssp_reply1 csrv; cssp_reply2 md5 hmac_md5 csrv (nl_key n)],
+         cs_done (nl_key n) (nla_creds md4 hmac_md5 upper c n csrv)).
+Proof. exact causality_nla_exec. Qed.
+Print Assumptions C03_causality_nla_executable.
+
+Theorem C03_causality_nla_credssp_executable :
+  forall (upper : list N -> list N) (p : prof) (c : fcfg) (n : nla_params) (srv : server) (csrv : cssp_server) (cs : stream) (j : nat),
+    valid_fcfg c -> conforming (c_offered (f_pdu c)) srv -> sv_selected srv = SEL_HYBRID ->
+    nla_ok md4 md5 hmac_md5 c n csrv ->
+    holds cs (ref_confirm srv) -> (j < 2)%nat ->
+    let r := flow_impl p (nla_cssp_env upper c n) c (nreads_of srv) cs (Some (firstn j (nla_stream md5 hmac_md5 csrv n []))) in
+    fl_res r <> Ok tt /\ fl_stage r = StConnect /\
+    exists w1 w2 w3 cr,
+      fl_trace r = FRaw cr :: FTlsStart true :: map FTls (firstn (S j) [w1; w2; w3]) /\
+      frame_kind cr = Some KRequest /\
+      cssp_serve md5 hmac_md5 upper csrv CsStart [w1; w2; w3] =
+        ([cssp_reply1 csrv; cssp_reply2 md5 hmac_md5 csrv (nl_key n)],
+         cs_done (nl_key n) (nla_creds md4 hmac_md5 upper c n csrv)).
+Proof. exact causality_nla_cssp_exec. Qed.
+Print Assumptions C03_causality_nla_credssp_executable.
+
 (* KNOWN FINDING C03-credssp-split (refutation witness).  The same conforming NLA server delivering its first
    TSRequest in two TLS records -- the same bytes, one more read boundary -- is refused with an ASN.1 error during
-   connect: NLA success is NOT independent of the fragmentation of the CredSSP messages, which is why the NLA
-   theorems take the outcome of the exchange as a hypothesis. *)
+   connect: NLA success is NOT independent of the fragmentation of the CredSSP messages, which is why the
+   conforming delivery of the NLA theorems ([nla_stream], [one_read]) hands each CredSSP reply over in ONE read. *)
 Theorem C03_cssp_split_refuted :
   fl_res nla_run_split = Err EAsn1 /\ fl_stage nla_run_split = StConnect /\
   List.concat (nla_post [firstn 40 C01_proofs.ex_reply1; skipn 40 C01_proofs.ex_reply1]) = List.concat (nla_post [C01_proofs.ex_reply1]).
